@@ -176,7 +176,7 @@ Example c04_example :
              OResume 0 (Some 3%Z) 0 1 1 3; OStart 3 (Some 1%Z)]).
 Proof.
   split; [split; simpl; repeat constructor|].
-  split; [split; simpl; [repeat constructor|]; lia|].
+  split; [unfold cfg_pos, c_levels; cbn; split; [repeat (constructor; [lia|]); constructor | lia]|].
   split; [vm_compute; intuition congruence|].
   split; [vm_compute; intuition congruence|].
   eexists. vm_compute. reflexivity.
